@@ -338,10 +338,14 @@ pub fn faults(xml: &str, doc: &Doc) -> Vec<Fault> {
       }
       if let Some(o) = &own {
         fs.push(Fault { kind: "typeRef:own".into(), at: at.clone(), edits: vec![(t.start, t.end, o.clone())] });
+        // the same reference laid out on a line of its own (white space around the text of an element is layout)
+        fs.push(Fault { kind: "typeRef:own-padded".into(), at: at.clone(), edits: vec![(t.start, t.end, format!("\n      {}\n    ", o))] });
       }
+      fs.push(Fault { kind: "typeRef:padded".into(), at: at.clone(), edits: vec![(t.start, t.end, format!("\n      {}\n    ", s.trim()))] });
       for n in &item_names {
         if Some(n) != own.as_ref() && n != &s {
           fs.push(Fault { kind: "typeRef:other".into(), at: at.clone(), edits: vec![(t.start, t.end, n.clone())] });
+          fs.push(Fault { kind: "typeRef:other-padded".into(), at: at.clone(), edits: vec![(t.start, t.end, format!(" {} ", n))] });
         }
       }
     }
